@@ -306,8 +306,10 @@ pub fn corpus() -> Vec<Skel> {
         let forty: Vec<Vec<u8>> = (0..40).map(|i| rb::varbind(&name(i), &rb::enc_int(i as i64 * 1000 - 5))).collect();
         let (entry, data) = wrap(version, &rb::pdu(0xa2, 1, 0, 0, &forty));
         out.push(Skel { name: format!("{}/response/forty", vn), entry, data, big: true });
-        let (entry, data) = wrap(version, &rb::pdu(0xa2, 5, 2, 1, &[rb::varbind(&name(1), &[5, 0])]));
-        out.push(Skel { name: format!("{}/response/error-status", vn), entry, data, big: false });
+        for status in [1i64, 2, 3, 5, 18] {
+            let (entry, data) = wrap(version, &rb::pdu(0xa2, 5, status, 1, &[rb::varbind(&name(1), &[5, 0]), rb::varbind(&name(2), &rb::enc_int(3))]));
+            out.push(Skel { name: format!("{}/response/error-status-{}", vn, status), entry, data, big: false });
+        }
         for (pn, tag) in [("get", 0xa0u8), ("getnext", 0xa1), ("getbulk", 0xa5), ("report", 0xa8), ("trap", 0xa7)] {
             let vbs = vec![rb::varbind(&name(1), &[5, 0]), rb::varbind(&name(2), &[5, 0])];
             let (entry, data) = wrap(version, &rb::pdu(tag, 0x7fffffff, 0, if tag == 0xa5 { 10 } else { 0 }, &vbs));
@@ -487,7 +489,7 @@ fn tamper(sk: &Skel, thorough: bool, rep: &mut Report, beat: &AtomicU64) {
 
 // ------------------------------------------------------------------ E4: privacy decrypt path
 
-fn des_cbc_encrypt(key: &[u8], iv: &[u8], data: &[u8]) -> Vec<u8> {
+pub fn des_cbc_encrypt(key: &[u8], iv: &[u8], data: &[u8]) -> Vec<u8> {
     use cipher::{BlockEncrypt, KeyInit};
     let c = des::Des::new_from_slice(key).unwrap();
     let mut prev = iv.to_vec();
@@ -506,7 +508,7 @@ fn des_cbc_encrypt(key: &[u8], iv: &[u8], data: &[u8]) -> Vec<u8> {
     out
 }
 
-fn aes_cfb_encrypt(key: &[u8], iv: &[u8], data: &[u8]) -> Vec<u8> {
+pub fn aes_cfb_encrypt(key: &[u8], iv: &[u8], data: &[u8]) -> Vec<u8> {
     use cipher::{BlockEncrypt, KeyInit};
     let c = aes::Aes128::new_from_slice(key).unwrap();
     let mut prev = iv.to_vec();
@@ -522,7 +524,7 @@ fn aes_cfb_encrypt(key: &[u8], iv: &[u8], data: &[u8]) -> Vec<u8> {
     out
 }
 
-const KEY: [u8; 20] = [1, 2, 3, 4, 5, 6, 7, 8, 9, 10, 11, 12, 13, 14, 15, 16, 17, 18, 19, 20];
+pub const KEY: [u8; 20] = [1, 2, 3, 4, 5, 6, 7, 8, 9, 10, 11, 12, 13, 14, 15, 16, 17, 18, 19, 20];
 
 fn decrypt_call(alg: u8, ct: &[u8], salt: &[u8], boots: i64, time: i64) -> bool {
     let mut k = match PrivKey::new(alg) {
